@@ -148,6 +148,24 @@ def scanImage (S : Scanners) (layers : List FSLayer) : List Pkg :=
   (S.osDbs.flatMap fun d => match present layers d with | some c => osPkgsOf S d c | none => []) ++
     (flatten layers).filterMap fun qc => langPkgAt S qc.1 qc.2
 
+/-! ### the (decidable) hypothesis of the composition theorem, executable
+
+  `tameB` is the Boolean form of `Tame` (Proofs/LayerFS.lean, `tameB_iff`); the driver
+  evaluates it on the abstraction of every generated history. -/
+
+def tameB (S : Scanners) (layers : List FSLayer) : Bool :=
+  decide (∀ l ∈ layers, (whiteoutsOf l ≠ [] ∨ langPkgs S l ≠ []) → (layers.map (·.hash)).count l.hash = 1) &&
+  decide (∀ l ∈ layers, (l.entries.map (·.1)).Nodup) &&
+  decide (∀ l ∈ layers, (whiteoutsOf l).length ≤ 1 ∧ whiteoutsOf l = whiteoutFiles l) &&
+  decide (∀ l ∈ layers, ∀ w ∈ whiteoutsOf l, ¬ (base w = opqName ∧ dir w = ".")) &&
+  decide (∀ l ∈ layers, ∀ l' ∈ layers, ∀ p ∈ langPkgs S l', hides l p.fp = (whiteoutFiles l).any fun w => covers w p.fp) &&
+  decide (∀ d ∈ S.osDbs, ∀ l ∈ layers, hides l d = false ∧ ∀ c ∈ fileOf l d, S.scanDB d c ≠ []) &&
+  decide (layers.Pairwise fun l l' => ∀ e ∈ l.entries, ∀ c ∈ fileOf l e.1, ∀ p ∈ S.scanFile e.1 c,
+      ∀ c' ∈ fileOf l' e.1, (∃ p' ∈ S.scanFile e.1 c', p'.id = p.id) ∨ hides l' e.1 = true) &&
+  decide (∀ l ∈ layers, ∀ l' ∈ layers, ∀ p ∈ langPkgs S l, ∀ p' ∈ langPkgs S l', p.id = p'.id → p.fp = p'.fp) &&
+  decide (∀ d ∈ S.osDbs, ∀ l ∈ layers, ∀ c ∈ fileOf l d, ∀ p ∈ S.scanDB d c,
+      ∀ l' ∈ layers, ∀ p' ∈ langPkgs S l', p.id ≠ p'.id)
+
 /-! ### line protocol: `flat layer|layer|…`, layer = `-` or `path:d,path:cN,…` -/
 
 def parseEntry (s : String) : Option (String × Entry) :=
@@ -167,5 +185,54 @@ def flatLine (s : String) : String :=
     let out := (flatten layers).map fun (p, c) => p ++ ":" ++ c
     let sorted := out.mergeSort fun a b => !(b < a)
     if sorted.isEmpty then "-" else ",".intercalate sorted
+
+/-! ### line protocol: `e2e <dbs> <table> <stack>` — the whole model against the real indexer
+
+  table  = `-` | entry `,` entry …      `O~<content>~<id>+<id>…`   what the OS scanner reads out of a database content
+                                         `F~<path>~<content>~<id>~<db>`   the language package found in a file
+  stack  = layer `|` layer …,  layer = `<hash>;<entries>` (entries as in `flat`)
+  answer = `tame=<bool> idx=<id@db,…> img=<id@db,…>`
+-/
+
+def mkPkg (id db : String) : Pkg :=
+  { id := id, name := id, version := "", kind := "", arch := "", src := "", db := db, fp := "" }
+
+structure ScanTable where
+  os : List (String × List String) := []
+  files : List ((String × String) × (String × String)) := []
+
+def parseTableEntry (t : ScanTable) (s : String) : Option ScanTable :=
+  match s.splitOn "~" with
+  | ["O", c, ids] => some { t with os := t.os ++ [(c, if ids = "" then [] else ids.splitOn "+")] }
+  | ["F", q, c, id, db] => some { t with files := t.files ++ [((q, c), (id, db))] }
+  | _ => none
+
+def parseTable (s : String) : Option ScanTable :=
+  if s = "-" then some {} else (s.splitOn ",").foldlM parseTableEntry {}
+
+def tableScanners (dbs : List String) (t : ScanTable) : Scanners where
+  osDbs := dbs
+  scanDB := fun d c => ((t.os.find? fun e => e.1 = c).map fun e => e.2.map fun id => mkPkg id d).getD []
+  scanFile := fun q c => (t.files.find? fun e => e.1.1 = q ∧ e.1.2 = c).map fun e => mkPkg e.2.1 e.2.2
+
+def parseHashedLayer (s : String) : Option FSLayer :=
+  match s.splitOn ";" with
+  | [h, es] => (parseFSLayer es).map fun l => { l with hash := h }
+  | _ => none
+
+def sortDedup (xs : List String) : List String :=
+  let sorted := xs.mergeSort fun a b => !(b < a)
+  sorted.foldr (fun x acc => match acc with | y :: _ => if x = y then acc else x :: acc | [] => [x]) []
+
+def e2eLine (dbs table stack : String) : String :=
+  match parseTable table, (stack.splitOn "|").mapM parseHashedLayer with
+  | some t, some layers =>
+    let S := tableScanners (if dbs = "-" then [] else dbs.splitOn ",") t
+    let idx := match indexModel S layers with
+      | none => "fail"
+      | some r => ",".intercalate (sortDedup (r.envs.flatMap fun (ie : String × List Env) => ie.2.map fun (e : Env) => ie.1 ++ "@" ++ e.db))
+    let img := ",".intercalate (sortDedup ((scanImage S layers).map fun (p : Pkg) => p.id ++ "@" ++ p.db))
+    s!"tame={tameB S layers} idx={idx} img={img}"
+  | _, _ => "bad-op"
 
 end ClairModel.LayerFS
